@@ -5,6 +5,7 @@ import os
 import shutil
 import struct
 import subprocess
+import tempfile
 import sys
 import time
 
@@ -291,7 +292,55 @@ def sig_id(sig):
     return hashlib.sha1(sig.encode()).hexdigest()[:10]
 
 
-def triage(binary, pid, violations, seed):
+def run_history(binary, h, workdir):
+    """Execute the runs `from..upto` of one shard in a fresh process; returns the signatures violated by run `upto`."""
+    os.makedirs(workdir, exist_ok=True)
+    out = os.path.join(workdir, "history.json")
+    cmd = [binary, "worker", "--prop", h["property"], "--tier", h["tier"], "--seed", str(h["verif_seed"]),
+           "--shard", str(h["shard"]), "--shards", str(h["shards"]), "--runs", str(h["runs"]),
+           "--from", str(h["from"]), "--upto", str(h["upto"]), "--out", out, "--replay-dir", workdir]
+    env = base_env()
+    env.update(h.get("switches", {}))
+    r = subprocess.run(cmd, env=env, stdout=subprocess.DEVNULL, stderr=subprocess.DEVNULL)
+    if r.returncode != 0 or not os.path.exists(out):
+        return None
+    vs = json.load(open(out))["violations"]
+    return sorted({v["signature"] for v in vs if v["run_index"] == h["upto"]})
+
+
+def history_replay(binary, pid, tier, seed, njobs, runs, first, sig):
+    """A violation that a fresh process does not show for the run alone may depend on state that survives a
+    call (a cache in a static or thread-local, a buffer pool): look for the shortest suffix of the runs that the
+    worker process had executed before it which reproduces the violation in a fresh process. The replay file
+    names that run sequence."""
+    if tier is None or not njobs:
+        return None
+    upto = first["run_index"]
+    shard = upto % njobs
+    tmp = tempfile.mkdtemp(prefix="verif_hist_")
+    try:
+        span = 2
+        while True:
+            frm = max(shard, upto - (span - 1) * njobs)
+            h = {"property": pid, "kind": "history", "tier": tier, "verif_seed": seed, "shard": shard, "shards": njobs,
+                 "runs": runs, "from": frm, "upto": upto,
+                 "switches": {k: os.environ[k] for k in ("VERIF_NO_EXTRA_POINTS", "VERIF_C14_NO_EARLIER_CALL") if k in os.environ}}
+            got = run_history(binary, h, os.path.join(tmp, "s%d" % span))
+            if got is not None and sig in got:
+                h["violation"] = {"signature": sig, "detail": first["detail"][:600]}
+                h["note"] = ("the last run of this sequence violates the property only after the earlier runs of the "
+                             "same process (%d runs in all): state survives a call" % ((upto - frm) // njobs + 1))
+                path = os.path.join(REPLAYS, "%s-seed%d-%s-history.json" % (pid, seed, sig_id(sig)))
+                json.dump(h, open(path, "w"), indent=1)
+                return path
+            if frm == shard or span > 200000:
+                return None
+            span *= 4
+    finally:
+        shutil.rmtree(tmp, ignore_errors=True)
+
+
+def triage(binary, pid, violations, seed, tier=None, njobs=None, runs=None):
     """Minimise and confirm one replay per distinct signature; split into new
     violations and known findings. Returns (new, known_hits, harness_error)."""
     known = [k for k in load_known() if k.get("property") == pid and k.get("status") == "known"]
@@ -321,8 +370,13 @@ def triage(binary, pid, violations, seed):
             if ok:
                 replay = cand
             else:
-                log("HARNESS-ERROR replay %s did not reproduce (rc=%s)" % (cand, r.returncode))
-                harness_error = True
+                hist = history_replay(binary, pid, tier, seed, njobs, runs, first, sig)
+                if hist:
+                    log("NOTE %s: the run alone does not reproduce it, the sequence of runs before it does (%s)" % (sig, hist))
+                    replay = hist
+                else:
+                    log("HARNESS-ERROR replay %s did not reproduce (rc=%s)" % (cand, r.returncode))
+                    harness_error = True
         entry = {"signature": sig, "count": len(vs), "replay": replay, "detail": first["detail"][:600],
                  "first_run_index": first["run_index"]}
         hit = next((k for k in known if k.get("signature") == sig), None)
@@ -499,12 +553,16 @@ def sched_phase(pid, tier, runs=None):
         w = read_words(os.path.join(workdir, "shard%02d.json.runs" % k))
         b.update(dict(zip(*[iter(w)] * 2)))
     mismatch = [i for i, d in a.items() if i in b and b[i] != d]
-    if mismatch:
+    if mismatch and violations:
+        # results that depend on what the process did before are what a violation caused by state surviving a
+        # call looks like: triage decides (history replay)
+        log("NOTE runs %s gave different digests in a second process; violations were reported, triage decides" % mismatch[:8])
+    elif mismatch:
         log("HARNESS-ERROR simulator nondeterminism: runs %s gave different digests in a second process" % mismatch[:8])
         raise SystemExit(2)
     cases, cases_total = distinct(binary, [os.path.join(workdir, "shard%02d.json.cases" % k) for k in range(njobs)])
     scheds, scheds_total = distinct(binary, [os.path.join(workdir, "shard%02d.json.scheds" % k) for k in range(njobs)])
-    new, known_hits, herr = triage(binary, pid, violations, seed)
+    new, known_hits, herr = triage(binary, pid, violations, seed, tier, njobs, runs)
     sr = seam_report()
     for k, v in sr.items():
         if v:
@@ -639,6 +697,23 @@ def cmd_replay(path):
         return memdriver.replay_judge(path, rf)
     ws = workspace()
     binary = build_sched(ws, quiet=True)
+    if rf.get("kind") == "history":
+        tmp = tempfile.mkdtemp(prefix="verif_hist_")
+        try:
+            got = run_history(binary, rf, tmp)
+        finally:
+            shutil.rmtree(tmp, ignore_errors=True)
+        want = rf.get("violation", {}).get("signature")
+        if got is None:
+            log("REPRODUCED property=%s (the worker process died)" % prop)
+            log("VIOLATION property=%s replay=%s" % (prop, path))
+            return 1
+        if want in got:
+            log("REPRODUCED property=%s signature=\"%s\" (runs %d..%d of shard %d/%d)" % (prop, want, rf["from"], rf["upto"], rf["shard"], rf["shards"]))
+            log("VIOLATION property=%s replay=%s" % (prop, path))
+            return 1
+        log("NOT-REPRODUCED property=%s signature=\"%s\"" % (prop, want))
+        return 0
     r = subprocess.run([binary, "replay", path], env=base_env(), stdout=subprocess.PIPE, stderr=subprocess.DEVNULL, text=True)
     sys.stdout.write(r.stdout)
     if r.returncode < 0:
